@@ -455,3 +455,12 @@ M("C04", "statv-payload-counted-from-the-end", "driver/protocol/statusblock.py",
 M("C13", "watercare-names-swapped", "const.py", "        \"Energy Saving\",\n        \"Super Energy Saving\",", "        \"Super Energy Saving\",\n        \"Energy Saving\",", rule="R6")
 M("C17", "config-members-a-generator", "config.py", "CONFIG_MEMBERS = [\n    attr\n    for attr in dir(_GeckoConfig)\n    if not callable(getattr(_GeckoConfig, attr)) and not attr.startswith(\"__\")\n]", "CONFIG_MEMBERS = (\n    attr\n    for attr in dir(_GeckoConfig)\n    if not callable(getattr(_GeckoConfig, attr)) and not attr.startswith(\"__\")\n)", rule="R1")
 M("C17", "config-members-a-tuple-twin", "config.py", "CONFIG_MEMBERS = [\n    attr\n    for attr in dir(_GeckoConfig)\n    if not callable(getattr(_GeckoConfig, attr)) and not attr.startswith(\"__\")\n]", "CONFIG_MEMBERS = tuple(\n    attr\n    for attr in dir(_GeckoConfig)\n    if not callable(getattr(_GeckoConfig, attr)) and not attr.startswith(\"__\")\n)", expect="silent")
+
+# --------------------------------------------------------------------------- round 14 rules
+M("C09", "refresh-loop-ends-when-pings-pause", "async_spa.py", "            if not self.is_responding_to_pings:\n                continue\n            if not await self.struct.get(", "            if not self.is_responding_to_pings:\n                break\n            if not await self.struct.get(", rule="R4")
+M("C10", "transfer-returns-from-finally", "driver/async_spastruct.py", "    async def get(", "    async def _unused_probe(self):\n        try:\n            pass\n        finally:\n            return None\n\n    async def get(", rule="R4")
+M("C14", "cooling-key-spelled-differently", "const.py", "    KEY_COOLINGDOWN = \"CoolingDown\"", "    KEY_COOLINGDOWN = \"Coolingdown\"", rule="R12")
+M("C08", "protocol-disconnect-closes-a-lost-transport", "driver/async_udp_protocol.py", "    def disconnect(self) -> None:\n        self.connection_lost(None)", "    def disconnect(self) -> None:\n        self.transport.close()\n        self.connection_lost(None)", rule="I6")
+M("C17", "reminders-none-on-exhausted-retries", "async_spa.py", "            await self._event_handler(GeckoSpaEvent.ERROR_PROTOCOL_RETRY_COUNT_EXCEEDED)\n            return []", "            await self._event_handler(GeckoSpaEvent.ERROR_PROTOCOL_RETRY_COUNT_EXCEEDED)\n            return None", rule="R5")
+M("C18", "time-items-keep-the-default-width", "driver/accessor.py", "        if (\n            self.type == GeckoConstants.SPA_PACK_STRUCT_WORD_TYPE\n            or self.type == GeckoConstants.SPA_PACK_STRUCT_TIME_TYPE\n        ):", "        if self.type == GeckoConstants.SPA_PACK_STRUCT_WORD_TYPE:", rule="R11")
+M("C19", "snapshot-segments-on-the-class", "utils/snapshot.py", "class GeckoSnapshot:\n    def __init__(self):\n        self._lines = []", "class GeckoSnapshot:\n    _status_block_segments = []\n\n    def __init__(self):\n        self._lines = []", expect="silent")
